@@ -239,21 +239,25 @@ theorem C18_inv_other_clients (s : SH) (cs cs' : Clients) (h : Inv s cs) (hsame 
 inductive HOp
   | book (op : Op)
   | set (c : Nat)
+  | retr (t : Option Tr)     -- c := GetHTTPClient(); c.Transport = t; SetHTTPClient(c)
 
 def runH (st : SH × Clients) : List HOp → SH × Clients
   | [] => st
   | .book op :: h => runH (applyOp st.1 op, st.2) h
   | .set c :: h => runH (setHTTPClient st.1 st.2 c) h
+  | .retr t :: h => runH (setHTTPClient st.1 (st.2.set st.1.client t) st.1.client) h
 
 def bookOf : List HOp → List Op
   | [] => []
   | .book op :: h => op :: bookOf h
   | .set _ :: h => bookOf h
+  | .retr _ :: h => bookOf h
 
 def setsValid (n : Nat) : List HOp → Prop
   | [] => True
   | .book _ :: h => setsValid n h
   | .set c :: h => c < n ∧ setsValid n h
+  | .retr t :: h => t ≠ some Tr.self ∧ setsValid n h
 
 /-- the invariant is preserved by every history of bookkeeping operations and `SetHTTPClient` calls, and the registered
     list after the history is the one `Spec.book` prescribes (the induction behind `C18_client`) -/
@@ -280,11 +284,22 @@ theorem C18_runH_inv (st : SH × Clients) (h : List HOp) (hinv : Inv st.1 st.2) 
       obtain ⟨hi, his, hlen⟩ := C18_setHTTPClient_inv st.1 st.2 c hc (Or.inl ⟨hinv.last, hinv.wrapped⟩)
       obtain ⟨h1, h2⟩ := ih (setHTTPClient st.1 st.2 c) hi (by rw [hlen]; exact hv')
       exact ⟨h1, by simp only [runH, bookOf]; rw [h2, his]⟩
+    | retr t =>
+      obtain ⟨_, hv'⟩ := hv
+      have hcl : st.1.client < st.2.length := by
+        have := hinv.client
+        exact (List.getElem?_eq_some_iff.mp this).1
+      have hlen' : (st.2.set st.1.client t).length = st.2.length := by simp
+      obtain ⟨hi, his, hlen⟩ := C18_setHTTPClient_inv st.1 (st.2.set st.1.client t) st.1.client (by rw [hlen']; exact hcl)
+        (Or.inl ⟨hinv.last, hinv.wrapped⟩)
+      obtain ⟨h1, h2⟩ := ih (setHTTPClient st.1 (st.2.set st.1.client t) st.1.client) hi (by rw [hlen, hlen']; exact hv')
+      exact ⟨h1, by simp only [runH, bookOf]; rw [h2, his]⟩
 
 /-- **client clause.**  Create a SimpleHTTP with any client `c` and interceptors `is` (no client can refer
     to the not-yet-existing SimpleHTTP), then apply ANY history of bookkeeping operations and
     `SetHTTPClient` calls with any clients of the pool (the same ones again, fresh ones, nil / default /
-    custom transports).  Every request through the current client then runs the chain exactly once — the
+    custom transports) — including the usual idiom of taking the instance's OWN client, replacing its `Transport` and
+    handing it back (`retr`).  Every request through the current client then runs the chain exactly once — the
     prescribed call log for the bookkeeping history — and ends in a transport `t` that is not the
     SimpleHTTP: no double wrap, no recursion. -/
 theorem C18_client (beh : Nat → Req → Req × Bool) (tf : Tr → Bool) (cs : Clients) (c : Nat) (is : List Nat) (h : List HOp)
@@ -306,7 +321,7 @@ theorem C18_client (beh : Nat → Req → Req × Bool) (tf : Tr → Bool) (cs : 
   unfold newSimpleHTTP
   rw [his0]
 
-example : setsValid 3 [.set 1, .book (.add [4]), .set 1, .set 2, .set 0] ∧
+example : setsValid 3 [.set 1, .book (.add [4]), .retr (some (.stub 7)), .set 1, .retr none, .set 2, .set 0] ∧
     (∀ k : Nat, ([some (Tr.stub 0), none, some Tr.dflt] : Clients)[k]? ≠ some (some Tr.self)) := by
   refine ⟨by simp [setsValid], fun k => ?_⟩
   rcases k with _ | _ | _ | k <;> simp
